@@ -269,6 +269,15 @@ func (g *G) pmCases() {
 	}
 	for _, c := range g.pmList {
 		g.emit("PM", fmt.Sprintf("%d %d %s", c.typ, b2i(c.flag), hx.Hex(c.data)))
+		// every accepted parse also feeds the marshal direction (PW)
+		c := c
+		if obs, _ := hx.Guard(pDeadline, func() string { return pmObs(c.typ, c.flag, c.data) }); strings.HasPrefix(obs, "ok") {
+			var fields []string
+			if len(obs) > 3 {
+				fields = strings.Split(obs[3:], " ")
+			}
+			g.pwFromParsed(c.typ, c.flag, fields)
+		}
 	}
 	g.pmList = nil
 }
